@@ -68,6 +68,6 @@ theorem never_stale_extracted {V} (sem : Sem V) (d0 : ModelDef) (pv0 : List Rat)
   never_stale _ extracted_good sem d0 pv0 ops (evalsWatched_extracted ops)
 
 /-- non-vacuity: the extracted tables are not empty -/
-example : extractedWatched.length ≥ 11 ∧ extractedRegistered.length ≥ 11 := by decide
+example : extractedWatched.length ≥ 12 ∧ extractedRegistered.length ≥ 12 := by decide
 
 end Pygom.C08Source
